@@ -147,7 +147,29 @@ func runC20(c *Ctx) {
 	case "configured":
 		body = codec.KDCProxyMessageHint(kerb, realmName, true, hint)
 	default:
-		body = codec.KDCProxyMessageHint(kerb, "NOWHERE.TEST", true, hint)
+		// (unknown realms in any spelling: none of them is the default realm)
+		body = codec.KDCProxyMessageHint(kerb, []string{"NOWHERE.TEST", "nosuch.test", "Nosuch.Test", "corp", "NOWHERE.TEST."}[c.T.Choose(5)], true, hint)
+	}
+	if len(payload) >= 130000 && len(payload) < 131000 && defect == "" {
+		// requests right at the limit: the body (not the embedded message) is what the 128 KiB
+		// are about; 131072 bytes are carried, 131073 and a few more are not
+		target := 131072 + []int{0, 0, 1, 2, 7, 15, 100}[c.T.Choose(7)]
+		for k := 0; k < 3 && len(body) != target; k++ {
+			payload = c.T.Bytes(len(payload)+target-len(body), 0x73)
+			kerb = append(binary.BigEndian.AppendUint32(nil, uint32(len(payload))), payload...)
+			switch realmKind {
+			case "default":
+				body = codec.KDCProxyMessageHint(kerb, "", false, hint)
+			case "configured":
+				body = codec.KDCProxyMessageHint(kerb, realmName, true, hint)
+			default:
+				body = codec.KDCProxyMessageHint(kerb, "NOWHERE.TEST", true, hint)
+			}
+		}
+		if len(body) > 131072 {
+			defect = "too-large"
+		}
+		c.S.Count("probe.body_at_the_size_limit")
 	}
 	req := &env.HTTPReq{Name: "kp", From: "10.5.0.3:53000", Method: "POST", Path: "/KdcProxy", Body: body, Header: [][2]string{{"Content-Type", "application/kerberos"}}}
 	wantStatus := 0
